@@ -859,8 +859,30 @@ class CaseGen:
     # ---- families
     def case(self):
         r = self.r
-        fam = r.choice(['lp', 'lp', 'mix', 'mix', 'mix', 'infeasible', 'unsupported', 'bigm', 'badheader', 'badbody', 'missing', 'names'])
-        if fam == 'lp':
+        fam = r.choice(['lp', 'lp', 'mix', 'mix', 'mix', 'infeasible', 'unsupported', 'bigm', 'badheader', 'badbody', 'missing', 'names', 'start'])
+        if fam == 'start':
+            # valid LP/MIP + incoming start values (x / d segments) x incoming basis (.sstatus) x basis option x which of the
+            # WARMSTART / MIPSTART features the driver declares (RECSOLVER_FEATURES) x MIP or not: input the driver may use or
+            # ignore, never a reason to fail
+            m = self.g.model_lp()
+            while not m.cons:
+                m = self.g.model_lp()
+            what, basis = self.g.add_start(m)
+            feats = r.choice(['', '-WARMSTART', '-WARMSTART', '-MIPSTART', '-WARMSTART,-MIPSTART'])
+            c = self.base('start:%s:%s:%s' % (what or '-', basis, feats or 'all'), m)
+            c['natural'] = 'none'
+            if feats:
+                c['env']['RECSOLVER_FEATURES'] = feats
+            if r.chance(1, 2):
+                c['env']['RECSOLVER_ISMIP'] = r.choice(['0', '1'])
+            c['start_opts'] = []
+            if r.chance(1, 2):
+                c['start_opts'].append(('%s=%d' % (r.choice(['alg:basis', 'basis']), r.below(4)), 'o'))
+            if 'WARMSTART' not in feats and r.chance(1, 2):      # alg:start is registered only for drivers with WARMSTART
+                c['start_opts'].append(('%s=%d' % (r.choice(['alg:start', 'warmstart']), r.below(3)), 'o'))
+            if r.chance(1, 4):
+                c['start_opts'].append(('debug=1', 'o'))
+        elif fam == 'lp':
             c = self.base('lp', self.g.model_lp())
             c['natural'] = 'none'
         elif fam == 'mix':
@@ -905,12 +927,15 @@ class CaseGen:
             c['natural'] = 'none'
         self.add_mode(c)
         self.add_options(c)
+        if c.get('start_opts') and c.get('stub', True):
+            c['options'] = c['start_opts'] + c['options']
+            c['all_opts'] = c.get('all_opts_env', []) + c['options']
         if c.get('bigm_acc1') and c.get('stub', True):
             c['options'] = [('acc:indle=1', 'o'), ('acc:indge=1', 'o'), ('acc:indeq=1', 'o')] + c['options']
             c['all_opts'] = c.get('all_opts_env', []) + c['options']
         self.add_names(c)
         self.add_outpath(c)
-        if fam in ('lp', 'mix', 'names', 'infeasible', 'bigm', 'unsupported'):
+        if fam in ('lp', 'mix', 'names', 'infeasible', 'bigm', 'unsupported', 'start'):
             self.add_fault(c)
             self.add_answer(c)
         self.add_extras(c)
@@ -1151,6 +1176,21 @@ def corpus_cases(cg):
             for code in codes:
                 mk('inject:%s:%s' % (site, kind), env={'RECSOLVER_FAULT': '%s:%s' % (site, kind) + (':%d' % code if code is not None else '')},
                    inject=(site, kind, code), synthetic=True)
+    # incoming start values / basis x declared features (seeded C09-6): a valid model with x and d segments must be solved whatever
+    # subset of WARMSTART / MIPSTART the driver declares
+    for what in ('x', 'd', 'xd'):
+        for basis in ('none', 'both', 'var'):
+            for feats in ('', '-WARMSTART', '-MIPSTART', '-WARMSTART,-MIPSTART'):
+                for opt in (None, 'basis=0', 'basis=3'):
+                    if opt and (what != 'xd' or basis == 'var'):
+                        continue
+                    m = lp(); cg.g.add_start(m, what, basis)
+                    c = cg.base('corpus:start:%s:%s:%s:%s' % (what, basis, feats or 'all', opt or '-'), m)
+                    c['natural'] = 'none'
+                    c['options'] = c['all_opts'] = [(opt, 'o')] if opt else []
+                    if feats:
+                        c['env']['RECSOLVER_FEATURES'] = feats
+                    out.append(c)
     # not exceptions (round 6): the stage kills the process / does not return.  Reached: crash / hang; not reached (a bad
     # option ends the run before): the run ends as if nothing had been injected (C09_pipeline_abort_hang)
     for site in SITES:
